@@ -40,7 +40,7 @@ ID = "C09"
 LEAN_TARGETS = ["RV.C09.Props", "RV.C09.Audit"]
 AUDIT = "RV/C09/Audit.lean"
 DRIVER = "drv_c09"
-CASES = {"quick": 14000, "thorough": 600000, "search": 80000}
+CASES = {"quick": 50000, "thorough": 1500000, "search": 100000}
 TABLES = c09_tables.tables_text
 SPELL = bool(os.environ.get("VERIF_C09_SPELL"))
 RULE = ("one literal (or one pair) per case: grammar-generated valid lexical forms and mutated ones for 30 recognised "
@@ -383,7 +383,7 @@ def in_fragment(dt, s):
         if t[:1].lower() in ("i", "n", "s"):
             return False
         m = re.search("[eE]", t)
-        return len(t[m.end():] if m else "") <= 4
+        return len(t[m.end():] if m else "") <= 3
     if dt == "date":
         return "W" not in s
     if dt == "time":
@@ -628,7 +628,8 @@ def run_eq(case):
         res = "1" if r is True else "0" if r is False else "other"
     except TypeError:
         r, res = None, "TypeError"
-    obs = [f"eq|{int(term)}|{res}"]
+    # term equality depends on how normal forms are spelled: compared only in spelling mode
+    obs = [f"eq|{int(term) if SPELL else '-'}|{res}"]
     da, db = (None if x.datatype is None else local(x.datatype) for x in (a, b))
     comparable = (_family(da) == _family(db) and a.value is not None and b.value is not None
                   and a.ill_typed is not True and b.ill_typed is not True)
